@@ -162,7 +162,11 @@ class Array:
                 chunk_data = [parse_data(part, type_code=self.type_code) for part in raw_bytes]
                 data_.extend(chunk_data)
 
-            data = np.stack(data_, axis=0)
+            if data_:
+                data = np.stack(data_, axis=0)
+            else:
+                # empty selection: nothing was read
+                data = np.empty((0, *self.shape[1:]), dtype=self.dtype)
 
         new_indexers = tuple(cons(slice(None), indexers[1:]))
         return data[new_indexers]
